@@ -858,7 +858,10 @@ func runStress(cfg stressCfg, res *hx.Result) (nenv int, fails []hx.Failure) {
 			if late == 1 && len(ds) == 1 {
 				c := ds[0]
 				for _, c2 := range cs {
-					if c2 != c && c2.subOK && matches(c2.mask, p.tag) && c2.subStart > p.pe && c2.subRet < c.subStart {
+					// c2 subscribed (completely) before c began to: either after the put had returned, or
+					// overlapping the put while staying subscribed until the put had returned - whichever of
+					// Put and Subscribe took effect first, c2 was entitled to the envelope before c
+					if c2 != c && c2.subOK && matches(c2.mask, p.tag) && (c2.subStart > p.pe || c2.closeStart > p.pe) && c2.subRet < c.subStart {
 						bad("stress/not-first-subscriber", p, "kept in the cache past the matching subscription of consumer %d and handed to consumer %d", c2.id, c.id)
 						break
 					}
